@@ -21,16 +21,33 @@
     }
 
     #[derive(Clone)]
-    struct Backend { body: Vec<u8>, with_length: bool, initial_window: Option<u32>, connection_bonus: u32, connection_grant: u32, max_concurrent: Option<u32>, delay_ms: u64, connections: Arc<AtomicUsize>, served: Arc<AtomicUsize>, uploaded: Arc<AtomicUsize>, events: Arc<Mutex<Vec<String>>> }
+    struct Backend { body: Vec<u8>, with_length: bool, initial_window: Option<u32>, connection_bonus: u32, connection_grant: u32, max_concurrent: Option<u32>, delay_ms: u64, connections: Arc<AtomicUsize>, special: u8, served: Arc<AtomicUsize>, uploaded: Arc<AtomicUsize>, events: Arc<Mutex<Vec<String>>> }
 
     /// what sozu lets this backend send: the connection window, the stream windows, and the answers still being sent
     struct SendSide { initial: i64, connection: i64, streams: HashMap<u32, i64>, pending: Vec<(u32, usize)> }
 
     fn respond(conn: &mut TcpStream, sid: u32, b: &Backend, tx: &mut SendSide) {
         if b.delay_ms > 0 { thread::sleep(Duration::from_millis(b.delay_ms)); }
+        // special answers: 1 = answer to HEAD (content-length, no body), 2 = 204 No Content, 3 = body followed by a trailer section,
+        // 4 = 304 Not Modified declaring the length of the representation, no body
+        if b.special == 1 || b.special == 2 || b.special == 4 {
+            let mut hb = vec![match b.special { 2 => 0x89u8, 4 => 0x8bu8, _ => 0x88u8 }];   // :status 204 / 304 / 200 (static table)
+            if b.special != 2 { lit(&mut hb, b"content-length", b.body.len().to_string().as_bytes()); }
+            let _ = conn.write_all(&frame(0x1, 0x4 | 0x1, sid, &hb));
+            b.served.fetch_add(1, Ordering::SeqCst);
+            return;
+        }
         let mut hb = vec![0x88u8];   // :status 200 (static table)
         if b.with_length { lit(&mut hb, b"content-length", b.body.len().to_string().as_bytes()); }
         let _ = conn.write_all(&frame(0x1, 0x4, sid, &hb));
+        if b.special == 3 {
+            let mut out = frame(0x0, 0, sid, &b.body);
+            let mut tb = Vec::new(); lit(&mut tb, b"x-checksum", b"abc123");
+            out.extend_from_slice(&frame(0x1, 0x4 | 0x1, sid, &tb));
+            let _ = conn.write_all(&out);
+            b.served.fetch_add(1, Ordering::SeqCst);
+            return;
+        }
         let initial = tx.initial;
         tx.streams.entry(sid).or_insert(initial);
         tx.pending.push((sid, 0));
@@ -143,33 +160,52 @@
         (stop, handle)
     }
 
-    /// read one HTTP/1.1 response (Content-Length or chunked framing); None if it does not complete in time
-    fn read_response(client: &mut TcpStream) -> (String, Option<Vec<u8>>) {
-        let mut seen: Vec<u8> = Vec::new();
-        let mut buf = [0u8; 8192];
-        let deadline = Instant::now() + Duration::from_secs(8);
-        loop {
-            if let Some(p) = seen.windows(4).position(|w| w == b"\r\n\r\n") {
-                let head = String::from_utf8_lossy(&seen[..p]).into_owned();
-                let lower = head.to_ascii_lowercase();
-                let rest = &seen[p + 4..];
-                if let Some(n) = lower.lines().find(|l| l.starts_with("content-length:")).and_then(|l| l["content-length:".len()..].trim().parse::<usize>().ok()) {
-                    if rest.len() >= n { return (head, Some(rest[..n].to_vec())); }
-                } else if lower.contains("transfer-encoding: chunked") {
-                    let (mut pos, mut body) = (0usize, Vec::new());
-                    loop {
-                        let Some(e) = rest[pos..].windows(2).position(|w| w == b"\r\n") else { break };
-                        let Ok(size) = usize::from_str_radix(String::from_utf8_lossy(&rest[pos..pos + e]).trim(), 16) else { break };
-                        pos += e + 2;
-                        if size == 0 { if rest.len() >= pos + 2 { return (head, Some(body)); } break; }
-                        if rest.len() < pos + size + 2 { break; }
-                        body.extend_from_slice(&rest[pos..pos + size]);
-                        pos += size + 2;
+    /// strict HTTP/1.1 response reader over one connection: consumes exactly one message per call (RFC 9112 §6: no body
+    /// for HEAD / 1xx / 204 / 304, else Content-Length, else chunked with its trailer section); what follows stays in `carry`
+    struct H1Reader { carry: Vec<u8>, closed: bool }
+    impl H1Reader {
+        /// (head, body, trailer lines); body None if the message does not complete in time
+        fn next(&mut self, client: &mut TcpStream, head_request: bool) -> (String, Option<Vec<u8>>, Vec<String>) {
+            let mut buf = [0u8; 8192];
+            let deadline = Instant::now() + Duration::from_secs(8);
+            loop {
+                if let Some(p) = self.carry.windows(4).position(|w| w == b"\r\n\r\n") {
+                    let head = String::from_utf8_lossy(&self.carry[..p]).into_owned();
+                    let lower = head.to_ascii_lowercase();
+                    let code: u16 = lower.get(9..12).and_then(|c| c.parse().ok()).unwrap_or(0);
+                    let rest = &self.carry[p + 4..];
+                    if head_request || (100..200).contains(&code) || code == 204 || code == 304 {
+                        self.carry.drain(..p + 4);
+                        return (head, Some(Vec::new()), Vec::new());
+                    } else if let Some(n) = lower.lines().find(|l| l.starts_with("content-length:")).and_then(|l| l["content-length:".len()..].trim().parse::<usize>().ok()) {
+                        if rest.len() >= n { let body = rest[..n].to_vec(); self.carry.drain(..p + 4 + n); return (head, Some(body), Vec::new()); }
+                    } else if lower.contains("transfer-encoding: chunked") {
+                        let (mut pos, mut body) = (0usize, Vec::new());
+                        'chunks: loop {
+                            let Some(e) = rest[pos..].windows(2).position(|w| w == b"\r\n") else { break };
+                            let Ok(size) = usize::from_str_radix(String::from_utf8_lossy(&rest[pos..pos + e]).trim(), 16) else { return (format!("{head} [bad chunk-size line {:?}]", String::from_utf8_lossy(&rest[pos..pos + e])), None, Vec::new()) };
+                            pos += e + 2;
+                            if size == 0 {
+                                // trailer section: field lines until the empty line
+                                let mut trailers = Vec::new();
+                                loop {
+                                    let Some(e) = rest[pos..].windows(2).position(|w| w == b"\r\n") else { break 'chunks };
+                                    let line = String::from_utf8_lossy(&rest[pos..pos + e]).into_owned();
+                                    pos += e + 2;
+                                    if line.is_empty() { self.carry.drain(..p + 4 + pos); return (head, Some(body), trailers); }
+                                    trailers.push(line);
+                                }
+                            }
+                            if rest.len() < pos + size + 2 { break; }
+                            body.extend_from_slice(&rest[pos..pos + size]);
+                            if &rest[pos + size..pos + size + 2] != b"\r\n" { return (format!("{head} [chunk data not followed by CRLF]"), None, Vec::new()); }
+                            pos += size + 2;
+                        }
                     }
                 }
+                if Instant::now() > deadline { return (String::from_utf8_lossy(&self.carry).into_owned(), None, Vec::new()); }
+                match client.read(&mut buf) { Ok(0) => { self.closed = true; return (String::from_utf8_lossy(&self.carry).into_owned(), None, Vec::new()) }, Ok(n) => self.carry.extend_from_slice(&buf[..n]), Err(e) if e.kind() == std::io::ErrorKind::ConnectionReset => { self.closed = true; return (String::from_utf8_lossy(&self.carry).into_owned(), None, Vec::new()) }, Err(_) => {} }
             }
-            if Instant::now() > deadline { return (String::from_utf8_lossy(&seen).into_owned(), None); }
-            match client.read(&mut buf) { Ok(0) => return (String::from_utf8_lossy(&seen).into_owned(), None), Ok(n) => seen.extend_from_slice(&buf[..n]), Err(_) => {} }
         }
     }
 
@@ -184,33 +220,51 @@
         let mode_keepalive = std::env::var("VERIF_NATIVE_ARGS").map(|a| a.contains("keepalive")).unwrap_or(false) || !mode_flow;
         let (mut n, mut answered, mut fails): (u64, u64, Vec<(String, String)>) = (0, 0, Vec::new());
         // ---- HTTP/1.1 front
-        for (with_length, body_len, post_len, initial_window, flow) in [(true, 5usize, 0usize, None, false), (false, 5, 0, None, false), (true, 40_000, 0, None, false), (true, 5, 3, None, false), (true, 5, 5_000, Some(1_000u32), true), (true, 5, 100_000, Some(70_000u32), true), (true, 1_000_000, 0, None, true), (false, 300_000, 0, None, true)] {
+        for (with_length, body_len, post_len, initial_window, flow, special) in [(true, 5usize, 0usize, None, false, 0u8), (false, 5, 0, None, false, 0), (true, 40_000, 0, None, false, 0), (true, 5, 3, None, false, 0), (true, 5, 0, None, false, 1), (true, 0, 0, None, false, 2), (true, 5, 0, None, false, 3), (false, 5, 0, None, false, 3), (true, 5, 0, None, false, 4), (true, 5, 5_000, Some(1_000u32), true, 0), (true, 5, 100_000, Some(70_000u32), true, 0), (true, 1_000_000, 0, None, true, 0), (false, 300_000, 0, None, true, 0)] {
             if (flow && !mode_flow) || (!flow && !mode_keepalive) { continue; }
             let front_address = create_local_address();
             let (config, listeners, state) = Worker::empty_config();
             let (mut worker, backends) = setup_test("VERIF-H1H2", config, listeners, state, front_address, 1, false);
             worker.send_proxy_request_type(RequestType::AddCluster(Cluster { http2: Some(true), ..Worker::default_cluster("cluster_0") }));
             worker.read_to_last();
-            let b = Backend { body: (0..body_len).map(|i| b'a' + (i % 26) as u8).collect(), with_length, initial_window, connection_bonus: 0, connection_grant: 65_535, max_concurrent: None, delay_ms: 0, connections: Arc::new(AtomicUsize::new(0)),
+            let b = Backend { body: (0..body_len).map(|i| b'a' + (i % 26) as u8).collect(), with_length, initial_window, connection_bonus: 0, connection_grant: 65_535, max_concurrent: None, delay_ms: 0, connections: Arc::new(AtomicUsize::new(0)), special,
                               served: Arc::new(AtomicUsize::new(0)), uploaded: Arc::new(AtomicUsize::new(0)), events: Arc::new(Mutex::new(Vec::new())) };
             let (stop, acceptor) = start_backend(backends[0], &b);
-            let name = format!("HTTP/1.1 client: {per_connection} {} requests one after the other on one keep-alive connection; the h2c backend answers each with 200, {} and a {body_len}-octet body{}",
-                               if post_len > 0 { format!("POST (Content-Length: {post_len})") } else { "GET".to_string() }, if with_length { "content-length" } else { "no content-length" },
+            let method = if special == 1 { "HEAD" } else if post_len > 0 { "POST" } else { "GET" };
+            let answer = match special { 1 => format!("200, content-length: {body_len} and no body (the answer to HEAD)"), 2 => "204 and no body".to_string(), 4 => format!("304, content-length: {body_len} and no body"),
+                                         3 => format!("200, {}, a {body_len}-octet body and a trailer section (x-checksum: abc123)", if with_length { "content-length" } else { "no content-length" }),
+                                         _ => format!("200, {} and a {body_len}-octet body", if with_length { "content-length" } else { "no content-length" }) };
+            let name = format!("HTTP/1.1 client: {per_connection} {} requests one after the other on one keep-alive connection; the h2c backend answers each with {answer}{}",
+                               if post_len > 0 { format!("POST (Content-Length: {post_len})") } else { method.to_string() },
                                initial_window.map(|w| format!("; the backend advertises SETTINGS_INITIAL_WINDOW_SIZE {w} and opens a window again only when it is exhausted")).unwrap_or_default());
             let upload: Vec<u8> = (0..post_len).map(|i| b'A' + (i % 26) as u8).collect();
             let mut client = TcpStream::connect(front_address).expect("connect to sozu");
             client.set_read_timeout(Some(Duration::from_millis(300))).unwrap();
+            let mut reader = H1Reader { carry: Vec::new(), closed: false };
+            let mut reconnects = 0;
+            let (want_code, want_body): (&str, Vec<u8>) = match special { 1 => ("200", Vec::new()), 2 => ("204", Vec::new()), 4 => ("304", Vec::new()), _ => ("200", b.body.clone()) };
             for k in 0..per_connection {
                 n += 1;
-                let mut req = if post_len > 0 { format!("POST /r{k} HTTP/1.1\r\nHost: localhost\r\nContent-Length: {post_len}\r\n\r\n").into_bytes() } else { format!("GET /r{k} HTTP/1.1\r\nHost: localhost\r\n\r\n").into_bytes() };
+                let mut req = if post_len > 0 { format!("POST /r{k} HTTP/1.1\r\nHost: localhost\r\nContent-Length: {post_len}\r\n\r\n").into_bytes() } else { format!("{method} /r{k} HTTP/1.1\r\nHost: localhost\r\n\r\n").into_bytes() };
                 req.extend_from_slice(&upload);
-                if client.write_all(&req).is_err() { fails.push((name.clone(), format!("request #{k}: the connection was closed by sozu before the request could be sent; backend saw {:?}", b.events.lock().unwrap()))); break; }
-                let (head, got) = read_response(&mut client);
+                let sent = client.write_all(&req).is_ok();
+                let (mut head, mut got, mut trailers) = if sent { reader.next(&mut client, special == 1) } else { reader.closed = true; (String::new(), None, Vec::new()) };
+                if got.is_none() && reader.closed && head.is_empty() && k > 0 {
+                    // sozu closed the idle connection between two requests (any server may): do what a client does — connect
+                    // again and send the request again; the answer must still be the backend's
+                    reconnects += 1;
+                    client = TcpStream::connect(front_address).expect("connect to sozu");
+                    client.set_read_timeout(Some(Duration::from_millis(300))).unwrap();
+                    reader = H1Reader { carry: Vec::new(), closed: false };
+                    let _ = client.write_all(&req);
+                    (head, got, trailers) = reader.next(&mut client, special == 1);
+                }
                 let status = head.lines().next().unwrap_or("").to_string();
-                println!("N-h1h2 {name:?} request #{k}: {status:?} body {:?} octets", got.as_ref().map(|b| b.len()));
+                println!("N-h1h2 {name:?} request #{k}: {status:?} body {:?} octets, trailers {trailers:?}, {} octets left over, reconnects so far {reconnects}", got.as_ref().map(|b| b.len()), reader.carry.len());
+                if std::env::var("VERIF_NATIVE_DEBUG").is_ok() { println!("  head: {head:?}"); }
                 match got {
-                    Some(body) if status.starts_with("HTTP/1.1 200") && body == b.body => { answered += 1; }
-                    Some(body) => { fails.push((name.clone(), format!("request #{k} is answered {status:?} with a {}-octet body although the backend answered 200 with {body_len} octets (requests served by the backend: {}, backend saw: {:?})", body.len(), b.served.load(Ordering::SeqCst), b.events.lock().unwrap()))); break; }
+                    Some(body) if status.starts_with(&format!("HTTP/1.1 {want_code}")) && body == want_body && reader.carry.is_empty() => { answered += 1; }
+                    Some(body) => { fails.push((name.clone(), format!("request #{k} is answered {status:?} with a {}-octet body and {} octets after the end of the message ({:?}) although the backend answered {answer} (requests served by the backend: {}, backend saw: {:?})", body.len(), reader.carry.len(), String::from_utf8_lossy(&reader.carry[..reader.carry.len().min(60)]), b.served.load(Ordering::SeqCst), b.events.lock().unwrap()))); break; }
                     None => { fails.push((name.clone(), format!("request #{k} gets no complete answer within 8 s (received so far: {:?}; requests served by the backend: {}, octets uploaded to it: {}, backend saw: {:?})", &head[..head.len().min(200)], b.served.load(Ordering::SeqCst), b.uploaded.load(Ordering::SeqCst), b.events.lock().unwrap()))); break; }
                 }
             }
@@ -229,7 +283,7 @@
             let back_address = create_local_address();
             worker.send_proxy_request_type(RequestType::AddBackend(Worker::default_backend("cluster_0", "cluster_0-0", back_address, None)));
             worker.read_to_last();
-            let b = Backend { body: b"hello".to_vec(), with_length: true, initial_window: Some(10_000), connection_bonus: 1 << 20, connection_grant: 65_535, max_concurrent: None, delay_ms: 0, connections: Arc::new(AtomicUsize::new(0)),
+            let b = Backend { body: b"hello".to_vec(), with_length: true, initial_window: Some(10_000), connection_bonus: 1 << 20, connection_grant: 65_535, max_concurrent: None, delay_ms: 0, connections: Arc::new(AtomicUsize::new(0)), special: 0,
                               served: Arc::new(AtomicUsize::new(0)), uploaded: Arc::new(AtomicUsize::new(0)), events: Arc::new(Mutex::new(Vec::new())) };
             let (stop, acceptor) = start_backend(back_address, &b);
             let post_len = 60_000usize;
@@ -280,7 +334,7 @@
             let back_address = create_local_address();
             worker.send_proxy_request_type(RequestType::AddBackend(Worker::default_backend("cluster_0", "cluster_0-0", back_address, None)));
             worker.read_to_last();
-            let b = Backend { body: b"hello".to_vec(), with_length: true, initial_window: None, connection_bonus: 0, connection_grant: 65_535, max_concurrent: Some(1), delay_ms: 700, connections: Arc::new(AtomicUsize::new(0)),
+            let b = Backend { body: b"hello".to_vec(), with_length: true, initial_window: None, connection_bonus: 0, connection_grant: 65_535, max_concurrent: Some(1), delay_ms: 700, connections: Arc::new(AtomicUsize::new(0)), special: 0,
                               served: Arc::new(AtomicUsize::new(0)), uploaded: Arc::new(AtomicUsize::new(0)), events: Arc::new(Mutex::new(Vec::new())) };
             let (stop, acceptor) = start_backend(back_address, &b);
             let name = "HTTP/2 client: a warm-up GET on stream 1, then two GETs written together on streams 3 and 5; the h2c backend advertises SETTINGS_MAX_CONCURRENT_STREAMS 1 and answers each request after 0.7 s".to_string();
@@ -327,7 +381,7 @@
             let back_address = create_local_address();
             worker.send_proxy_request_type(RequestType::AddBackend(Worker::default_backend("cluster_0", "cluster_0-0", back_address, None)));
             worker.read_to_last();
-            let b = Backend { body: b"hello".to_vec(), with_length: true, initial_window: Some(1 << 20), connection_bonus: 0, connection_grant: 3_000, max_concurrent: None, delay_ms: 0, connections: Arc::new(AtomicUsize::new(0)),
+            let b = Backend { body: b"hello".to_vec(), with_length: true, initial_window: Some(1 << 20), connection_bonus: 0, connection_grant: 3_000, max_concurrent: None, delay_ms: 0, connections: Arc::new(AtomicUsize::new(0)), special: 0,
                               served: Arc::new(AtomicUsize::new(0)), uploaded: Arc::new(AtomicUsize::new(0)), events: Arc::new(Mutex::new(Vec::new())) };
             let (stop, acceptor) = start_backend(back_address, &b);
             let post_len = 40_000usize;
@@ -372,6 +426,6 @@
             let _ = worker.wait_for_server_stop();
         }
         let fl: Vec<String> = fails.iter().map(|(i, o)| format!("{{\"input\": {:?}, \"observed\": {:?}}}", i, o)).collect();
-        let bound = if mode_flow { format!("6 scenarios (5 x {per_connection} requests one after the other, 1 x 3 concurrent uploads) through a real worker to an h2c backend that accounts every flow-controlled octet it receives and never exceeds the windows sozu advertises: HTTP/1.1 keep-alive clients uploading 5000 / 100000 octets against a backend stream window of 1000 / 70000 and downloading 1000000 / 300000 octets (sozu must replenish its windows), and an HTTP/2 client with a 1 MiB stream window uploading 60000 octets per stream against a backend stream window of 10000, and three concurrent 40000-octet uploads against the backend's connection window of 65535") } else { format!("4 scenarios x {per_connection} requests one after the other on one keep-alive HTTP/1.1 connection through a real worker to an h2c backend (GET / POST, responses with / without content-length, 5 and 40000 octets), and two concurrent HTTP/2 requests to an h2c backend that allows one stream per connection") };
+        let bound = if mode_flow { format!("6 scenarios (5 x {per_connection} requests one after the other, 1 x 3 concurrent uploads) through a real worker to an h2c backend that accounts every flow-controlled octet it receives and never exceeds the windows sozu advertises: HTTP/1.1 keep-alive clients uploading 5000 / 100000 octets against a backend stream window of 1000 / 70000 and downloading 1000000 / 300000 octets (sozu must replenish its windows), and an HTTP/2 client with a 1 MiB stream window uploading 60000 octets per stream against a backend stream window of 10000, and three concurrent 40000-octet uploads against the backend's connection window of 65535") } else { format!("9 scenarios x {per_connection} requests one after the other on one keep-alive HTTP/1.1 connection through a real worker to an h2c backend, read by a strict HTTP/1.1 reader (GET / POST / HEAD, responses with / without content-length, 5 and 40000 octets, 204, 304 with content-length, trailer sections), and two concurrent HTTP/2 requests to an h2c backend that allows one stream per connection") };
         println!("{{\"bound\": \"{bound}\", \"states\": {n}, \"pairs\": {n}, \"nontrivial_pairs\": {answered}, \"failures\": [{}]}}", fl.join(", "));
     }
